@@ -89,6 +89,7 @@ func chanElem(v *Val) types.Type {
 // ok is true (comma-ok receive), or the channel is declared never-closed (chanopen), or
 // the value is not the zero value a closed channel yields.
 func (fr *Frame) onRecvOk(ch *Val, v *Val, ok Term, pos token.Pos) {
+	defer fr.ghostAfter("recv", fr.chanName(ch), map[string]*Val{"ch": ch, "v": v})
 	if c, isDone := fr.ctxOfDoneChan(ch); isDone {
 		// a receive from ctx.Done() only completes once ctx is done
 		cd := fr.vc.heap(fr.st, ctxDoneHeap, ctxDoneSort)
@@ -155,8 +156,33 @@ func (fr *Frame) onClose(ch *Val, pos token.Pos) {
 }
 
 // onSend: a sent value must satisfy the channel invariant.
+// chanName describes a channel value for anchors: the field it was loaded from, if any.
+func (fr *Frame) chanName(ch *Val) string {
+	t := ch.T
+	if d, ok := fr.vc.defs[t]; ok {
+		t = d
+	}
+	// (select H_pkg.T_field!k ref) -> field name
+	if strings.HasPrefix(t, "(select H_") {
+		f := strings.Fields(t)
+		name := strings.TrimPrefix(f[1], "H_")
+		if i := strings.LastIndexAny(name, "!@"); i >= 0 {
+			name = name[:i]
+		}
+		if i := strings.LastIndex(name, "_"); i >= 0 {
+			return name[i+1:]
+		}
+		return name
+	}
+	if strings.HasPrefix(t, "(ctx.done.ch") {
+		return "ctx.Done"
+	}
+	return t
+}
+
 func (fr *Frame) onSend(ch *Val, v *Val, pos token.Pos) {
-	fr.anchorAsserts("send", "", pos, map[string]*Val{"ch": ch, "v": v})
+	fr.anchorAsserts("send", fr.chanName(ch), pos, map[string]*Val{"ch": ch, "v": v})
+	defer fr.ghostAfter("send", fr.chanName(ch), map[string]*Val{"ch": ch, "v": v})
 	et := chanElem(ch)
 	if et == nil {
 		return
@@ -420,5 +446,119 @@ func (fr *Frame) interference(recv *Val, rt types.Type) {
 				vc.assume(free, t)
 			}
 		}
+	}
+}
+
+
+// ---------------------------------------------------------------- ghost variables
+
+func (fr *Frame) topContract() (*Frame, *FuncContract) {
+	for f := fr; f != nil; f = f.parent {
+		fc := f.contr
+		if fc == nil {
+			fc = f.vc.eng.contractOf(f.fn)
+		}
+		if fc != nil && len(fc.GhostVars) > 0 {
+			return f, fc
+		}
+	}
+	return nil, nil
+}
+
+func (fr *Frame) ghostVarDecl(name string) *GhostVar {
+	fc := fr.contr
+	if fc == nil && fr.vc != nil && fr.fn != nil {
+		fc = fr.vc.eng.contractOf(fr.fn)
+	}
+	if fc == nil {
+		return nil
+	}
+	for _, g := range fc.GhostVars {
+		if g.Name == name {
+			return g
+		}
+	}
+	return nil
+}
+
+func (fr *Frame) ghostVarHeap(g *GhostVar, env *SpecEnv) (string, Sort, types.Type, error) {
+	te, err := parserParseExpr(g.Type)
+	if err != nil {
+		return "", "", nil, err
+	}
+	t, err := env.resolveType(te)
+	if err != nil {
+		return "", "", nil, err
+	}
+	var s Sort = SInt
+	if t != nil {
+		s = fr.U().sortOf(t)
+	}
+	return "$ghost|" + fr.key + "|" + g.Name, s, t, nil
+}
+
+// initGhostVars gives the ghost variables of the function their initial values (at entry).
+func (fr *Frame) initGhostVars() {
+	fc := fr.contr
+	if fc == nil {
+		fc = fr.vc.eng.contractOf(fr.fn)
+	}
+	if fc == nil {
+		return
+	}
+	for _, g := range fc.GhostVars {
+		env := fr.specEnvHere()
+		hn, s, _, err := fr.ghostVarHeap(g, env)
+		if err != nil {
+			fr.vc.specError(fr, g.Init, err)
+			continue
+		}
+		v, err := env.eval(g.Init.Expr)
+		if err != nil {
+			fr.vc.specError(fr, g.Init, err)
+			continue
+		}
+		fr.vc.setHeap(fr.st, hn, s, v.T)
+	}
+}
+
+// ghostAfter applies the `after <anchor>: v = e` updates of the function's contract.
+func (fr *Frame) ghostAfter(kind, what string, bind map[string]*Val) {
+	fc := fr.contr
+	if fc == nil {
+		fc = fr.vc.eng.contractOf(fr.fn)
+	}
+	if fc == nil {
+		return
+	}
+	for _, u := range fc.Afters {
+		f := strings.SplitN(u.Anchor, " ", 2)
+		if f[0] != kind {
+			continue
+		}
+		if len(f) == 2 && !strings.Contains(what, f[1]) {
+			continue
+		}
+		g := fr.ghostVarDecl(u.Var)
+		if g == nil {
+			fr.vc.specError(fr, u.Expr, fmt.Errorf("unknown ghost variable %s", u.Var))
+			continue
+		}
+		env := fr.specEnvHere()
+		for k, v := range bind {
+			env = env.bind(k, v)
+		}
+		hn, s, _, err := fr.ghostVarHeap(g, env)
+		if err != nil {
+			fr.vc.specError(fr, u.Expr, err)
+			continue
+		}
+		v, err := env.eval(u.Expr.Expr)
+		if err != nil {
+			fr.vc.specError(fr, u.Expr, err)
+			continue
+		}
+		old := fr.vc.heap(fr.st, hn, s)
+		fr.vc.setHeap(fr.st, hn, s, ite(fr.reach, v.T, old))
 	}
 }
